@@ -49,6 +49,8 @@ pub enum Ev {
     Finish,
     /// abandon(): finished with the position left where it is
     Abandon,
+    /// k calls of inc(1) at one instant (one update of +k; the bar's own throttle drops most of the samples)
+    Burst(u8),
 }
 
 #[derive(Debug, Clone, Serialize, Deserialize)]
@@ -72,6 +74,8 @@ struct Track {
     /// steps since creation only
     forward_only: bool,
     abandoned: bool,
+    /// steps of a same-instant burst that the estimator may only see together with the next update
+    burst_extra: u64,
 }
 
 /// All point-wise laws at the current (frozen) instant.
@@ -85,7 +89,7 @@ fn check_point(pb: &ProgressBar, tr: &Track, ctx: &str) -> Result<(), Fail> {
     ensure!(ps.is_finite() && ps >= 0.0, "finite", "{ctx}: per_sec() = {ps} (must be finite and >= 0)");
     if !fin {
         ensure!(
-            ps <= tr.max_rate * (1.0 + 1e-9) + f64::MIN_POSITIVE,
+            tr.burst_extra > 0 || ps <= tr.max_rate * (1.0 + 1e-9) + f64::MIN_POSITIVE,
             "upper_bound",
             "{ctx}: per_sec() = {ps} exceeds the largest rate observed since the last reset ({})",
             tr.max_rate
@@ -192,13 +196,32 @@ fn apply(pb: &ProgressBar, ev: &Ev, tr: &mut Track, pos: &mut u64) {
             pb.abandon();
             tr.abandoned = true;
         }
+        Ev::Burst(k) => {
+            for _ in 0..*k {
+                pb.inc(1);
+            }
+            *pos = pos.saturating_add(*k as u64);
+            if pb.position() != *pos {
+                // (saturated at u64::MAX in the model, wrapped in the bar: resynchronise)
+                pb.set_position(*pos);
+            }
+            forward(*pos, tr);
+            // several steps at one instant are outside the quantified histories (gaps from 1 ms): the observed
+            // rate is unbounded (steps over no time) and the estimator samples only some of the positions,
+            // so which rates and rewinds it saw is unknown from here on. What remains checkable - and is the
+            // point of generating bursts - is finiteness and eta == remaining / rate with the live position.
+            tr.burst_extra = *k as u64;
+            tr.whole_max = f64::INFINITY;
+            tr.distinct_rates.push(f64::INFINITY);
+            tr.distinct_rates.push(0.0);
+        }
     }
 }
 
 fn run_laws(c: &LawCase) -> CaseResult {
     let _clk = clock::Armed::new();
     let pb = ProgressBar::with_draw_target(c.len, ProgressDrawTarget::hidden());
-    let mut tr = Track { last_pos: 0, last_t: clock::now_ns(), max_rate: 0.0, reset_t: clock::now_ns(), distinct_rates: vec![], whole_max: 0.0, forward_only: true, abandoned: false };
+    let mut tr = Track { last_pos: 0, last_t: clock::now_ns(), max_rate: 0.0, reset_t: clock::now_ns(), distinct_rates: vec![], whole_max: 0.0, forward_only: true, abandoned: false, burst_extra: 0 };
     let mut pos = 0u64;
     let mut v = Verdict::default();
     let mut updates = 0;
@@ -226,7 +249,7 @@ fn run_laws(c: &LawCase) -> CaseResult {
     // stall: queries at increasing delays after the last step
     let mut prev = None::<f64>;
     let mut total = 0u64;
-    let steady = tr.distinct_rates.len() <= 1;
+    let steady = tr.distinct_rates.len() <= 1 && tr.burst_extra == 0;
     let mut rise = None;
     for (k, d) in c.stall.iter().enumerate() {
         clock::advance(Duration::from_millis((*d).max(1)));
@@ -261,7 +284,8 @@ fn run_laws(c: &LawCase) -> CaseResult {
 /// Known finding F-C09: the double-smoothed estimate can keep rising during a stall when the rate
 /// changed before it. Signature over the *case*: the history after the last reset is not steady.
 fn laws_signature(c: &LawCase) -> Option<&'static str> {
-    let ups = c.steps.iter().filter(|(_, e)| matches!(e, Ev::Inc(d) if *d > 0) || matches!(e, Ev::SetPos(_))).count();
+    // (a same-instant burst is seen by the estimator as two samples: its first step and, later, the rest)
+    let ups = c.steps.iter().map(|(_, e)| if matches!(e, Ev::Burst(_)) { 2 } else { usize::from(matches!(e, Ev::Inc(d) if *d > 0) || matches!(e, Ev::SetPos(_))) }).sum::<usize>();
     if ups >= 2 && !c.stall.is_empty() {
         Some("stall_after_rate_change")
     } else {
@@ -280,6 +304,7 @@ fn ev_strategy() -> BoxedStrategy<Ev> {
         1 => proptest::option::weighted(0.8, prop_oneof![0u64..10_000, any::<u64>()]).prop_map(Ev::SetLen),
         1 => Just(Ev::Finish),
         1 => Just(Ev::Abandon),
+        1 => (11u8..60).prop_map(Ev::Burst),
     ]
     .boxed()
 }
@@ -308,11 +333,18 @@ pub struct SteadyCase {
     /// position at which the steady progress starts (the estimator is reset there)
     #[serde(default)]
     offset: u64,
+    /// the bar is built with with_elapsed(this many ms): only elapsed() is backdated, the rate is not
+    #[serde(default)]
+    with_elapsed_ms: u64,
 }
 
 fn run_steady(c: &SteadyCase) -> CaseResult {
     let _clk = clock::Armed::new();
-    let pb = ProgressBar::with_draw_target(Some(u64::MAX), ProgressDrawTarget::hidden());
+    let mut pb = ProgressBar::with_draw_target(Some(u64::MAX), ProgressDrawTarget::hidden());
+    if c.with_elapsed_ms > 0 {
+        pb = pb.with_elapsed(Duration::from_millis(c.with_elapsed_ms));
+        ensure!(pb.elapsed() >= Duration::from_millis(c.with_elapsed_ms), "harness", "with_elapsed did not backdate elapsed()");
+    }
     let mut pos = c.offset;
     if c.offset > 0 {
         // start from a large position: everything before reset_eta() is to be ignored
@@ -361,6 +393,7 @@ fn run_steady(c: &SteadyCase) -> CaseResult {
     v.nontrivial = c.gaps_ms.len() >= 3 && distinct.len() >= 2;
     v.label_if(v.nontrivial, "irregular_cadence");
     v.label_if(!c.stall.is_empty(), "stall_queried");
+    v.label_if(c.with_elapsed_ms > 0, "built_with_elapsed");
     v.label_if(c.gaps_ms.iter().any(|g| *g >= 60_000), "long_gap");
     v.label_if(c.offset > 1 << 53, "offset_beyond_2_53");
     Ok(v)
@@ -374,8 +407,9 @@ fn steady_strategy(tier: Tier) -> BoxedStrategy<SteadyCase> {
         proptest::collection::vec(gap_strategy(), 0..8),
         any::<bool>(),
         prop_oneof![3 => Just(0u64), 1 => 1u64..1_000_000, 2 => (40u32..63).prop_map(|k| 1u64 << k)],
+        prop_oneof![3 => Just(0u64), 1 => 1u64..100_000, 1 => 100_000u64..100_000_000],
     )
-        .prop_map(|(rate_per_ms, gaps_ms, stall, via_inc, offset)| SteadyCase { rate_per_ms, gaps_ms, stall, via_inc, offset })
+        .prop_map(|(rate_per_ms, gaps_ms, stall, via_inc, offset, with_elapsed_ms)| SteadyCase { rate_per_ms, gaps_ms, stall, via_inc, offset, with_elapsed_ms })
         .boxed()
 }
 
@@ -536,7 +570,7 @@ fn decode_laws(u: &mut FuzzInput) -> LawCase {
             14 => Ev::Reset,
             15 => Ev::SetLen(if u.n(4) == 0 { None } else { Some(if u.bool() { u.range(0, 10_000) } else { u.u64() }) }),
             16 => Ev::Finish,
-            _ => Ev::Abandon,
+            _ => if u.bool() { Ev::Abandon } else { Ev::Burst(11 + u.n(40) as u8) },
         };
         steps.push((g, ev));
     }
@@ -627,7 +661,7 @@ pub fn property() -> Property {
                 name: "laws",
                 rule: "0-25 (thorough 60) steps of (gap 1 ms..10 days log-uniform, inc/set_position/tick/reset_eta/reset_elapsed/reset/set_length/finish) then 0-8 stall queries; at every instant: per_sec finite >= 0 and <= largest observed rate, eta == remaining/per_sec (0 when finished/no length/no progress), duration == elapsed + eta, per_sec ~ 0 after >= 1 h stall, per_sec non-increasing during the stall; non-trivial = >=3 updates with >=2 distinct gaps, or a reset/rewind",
                 strategy: laws_strategy,
-                cases: |t| t.pick(6_000, 1_200_000),
+                cases: |t| t.pick(18_000, 1_200_000),
                 run: run_laws,
                 signature: laws_signature,
                 essential: &["three_updates_two_gaps", "reset_or_rewind", "stall_queried", "rate_changed", "finished"],
@@ -638,7 +672,7 @@ pub fn property() -> Property {
                 name: "steady",
                 rule: "positions exactly rate*t for a rate of 1..2^40 steps/ms at 1-40 (thorough 200) irregular gaps of 1 ms..10 days: |per_sec - rate| <= 1e-9 rate after every update, and per_sec non-increasing over 0-8 stall queries; non-trivial = >=3 updates with >=2 distinct gaps",
                 strategy: steady_strategy,
-                cases: |t| t.pick(4_000, 800_000),
+                cases: |t| t.pick(12_000, 800_000),
                 run: run_steady,
                 signature: no_signature,
                 essential: &["irregular_cadence", "stall_queried", "long_gap", "offset_beyond_2_53"],
@@ -649,7 +683,7 @@ pub fn property() -> Property {
                 name: "indifference",
                 rule: "two bars created at the same instant get different pre-histories, are brought to the same position and pass reset_eta / reset_elapsed / reset / a common backwards seek, then an identical suffix: per_sec (bit-equal), eta and position must agree at every later instant; non-trivial = pre-histories differ and the suffix makes progress",
                 strategy: twin_strategy,
-                cases: |t| t.pick(5_000, 1_000_000),
+                cases: |t| t.pick(15_000, 1_000_000),
                 run: run_twin,
                 signature: no_signature,
                 essential: &["different_prehistories_then_progress", "rewind", "reset_all", "reset_eta"],
